@@ -75,6 +75,18 @@ type Scene struct {
 	Any    interface{}
 }
 
+// a struct that EMBEDS a pointer to another struct (the pointer may be nil)
+type Base struct {
+	ID   int
+	Slug string
+}
+
+type Product struct {
+	Sku string
+	*Base
+	Stock int
+}
+
 func twinA(title string, n int) interface{} {
 	type Product struct {
 		Title string
@@ -163,6 +175,15 @@ func buildGo(d interface{}) interface{} {
 			return &v
 		}
 		return v
+	case "embed":
+		p := Product{Sku: m["sku"].(string), Stock: 4}
+		if b, ok := m["base"].(map[string]interface{}); ok {
+			p.Base = &Base{ID: int(b["id"].(float64)), Slug: b["slug"].(string)}
+		}
+		if m["ptr"] == true {
+			return &p
+		}
+		return p
 	case "scene":
 		rc := Rect{Label: m["label"].(string), W: int(m["w"].(float64)), H: int(m["h"].(float64))}
 		r2 := Rect{Label: "second", W: 2, H: 5}
@@ -733,6 +754,23 @@ func genC11(r *Rng, n int, tier string, emit func(Case)) {
 			}
 			for _, p := range [][]interface{}{{f("none")}, {f("none"), f("label")}, {f("main"), f("nope")}, {f("shapes"), J{"i": 3}, f("label")}, {f("byName"), f("q"), f("label")}} {
 				emit(Case{"kind": "gopath", "val": sc, "path": p, "absent": true, "bucket": "behind-interface", "plen": len(p)})
+			}
+		}
+		if i%40 == 17 {
+			// a struct embedding a pointer to a struct, set and nil, by value and by pointer, inside a map
+			f := func(n string) J { return J{"f": n} }
+			for _, set := range []bool{true, false} {
+				e := J{"k": "embed", "sku": []string{"A-1", "<s>"}[g.r.Intn(2)], "ptr": g.r.Bool()}
+				if set {
+					e["base"] = J{"id": g.r.Range(1, 99), "slug": "sl"}
+				}
+				page := J{"k": "map", "entries": J{"product": e, "n": J{"k": "int", "v": 1}}}
+				for _, p := range [][]interface{}{{f("product"), f("sku")}, {f("product"), f("stock")}, {f("n")}} {
+					emit(Case{"kind": "gopath", "val": page, "path": p, "absent": false, "bucket": "embedded-pointer", "plen": len(p)})
+				}
+				for _, p := range [][]interface{}{{f("product"), f("base"), f("iD")}, {f("product"), f("base"), f("slug")}} {
+					emit(Case{"kind": "gopath", "val": page, "path": p, "absent": !set, "bucket": "embedded-pointer", "plen": len(p)})
+				}
 			}
 		}
 		if i%40 == 7 {
